@@ -145,6 +145,10 @@ def run_kani_set(pl, tier, obligations, assumptions, meta, filters=None, tag="k"
                                               {"reason": "vacuous: %d of %d reachability covers satisfied" % (h.covers_sat, h.covers_total)}, h.time_s, scope))
             else:
                 obligations.append(Obligation("K:" + name, "kani", name, "ok", {"checks": h.checks_total}, h.time_s, scope))
+        elif h.status == "failed" and h.failed_checks and all(c.get("desc", "").startswith("unwinding assertion") for c in h.failed_checks):
+            # the harness' own bound is too small for a loop: the obligation could not be formed, nothing is refuted
+            obligations.append(Obligation("K:" + name, "kani", name, "undecided",
+                                          {"reason": "unwinding bound of the harness exceeded (%s); no property check failed" % h.failed_checks[0].get("desc", "")}, h.time_s, scope))
         elif h.status == "failed":
             obligations.append(Obligation("K:" + name, "kani", name, "failed",
                                           {"failed_checks": h.failed_checks[:10], "full": h.full}, h.time_s, scope))
